@@ -346,12 +346,6 @@ theorem ainv_phases (s : St) (h : AInv s) (ps : List Pid) : AInv (ps.foldl phase
   | nil => exact h
   | cons i r ih => exact ih _ (ainv_phase s h i)
 
-theorem run_replicate_pc_other (s : St) (i j : Pid) (n : Nat) (h : j ≠ i) :
-    (run s (List.replicate n i)).pc j = s.pc j := by
-  induction n generalizing s with
-  | zero => rfl
-  | succ n ih => simp [List.replicate_succ, ih, step_pc_other s i j h]
-
 /-- a phase of `i` changes nobody else's program counter -/
 theorem phase_pc_other (s : St) (i j : Pid) (h : j ≠ i) : (phase s i).pc j = s.pc j := by
   obtain ⟨n, hn⟩ := phase_is_run s i
